@@ -1399,16 +1399,32 @@ private:
 
     while (log.peek() != EOF)
     {
+      const auto recordStart = log.tellg(); // boundary of the record about to be read
       uint32_t totalLen = 0;
       if (!log.read(reinterpret_cast<char *>(&totalLen), sizeof(totalLen)) || totalLen < 10 ||
           totalLen > 100 * 1024 * 1024)
       {
+        // Torn or corrupt tail: cut the log at the last record boundary. The log is reopened
+        // in append mode; records written behind a torn tail would be swallowed by its length
+        // field at the next load (acknowledged writes lost).
+        std::error_code ec;
+        std::filesystem::resize_file(_logPath, static_cast<std::uint64_t>(recordStart), ec);
+        if (ec)
+        {
+          throw KVStoreException("Failed to truncate torn log tail: " + ec.message());
+        }
         break; // Invalid or corrupted entry
       }
 
       std::vector<std::uint8_t> buffer(totalLen);
       if (!log.read(reinterpret_cast<char *>(buffer.data()), totalLen))
       {
+        std::error_code ec;
+        std::filesystem::resize_file(_logPath, static_cast<std::uint64_t>(recordStart), ec);
+        if (ec)
+        {
+          throw KVStoreException("Failed to truncate torn log tail: " + ec.message());
+        }
         break; // Incomplete entry
       }
 
